@@ -825,3 +825,19 @@ pub fn off_curve_x<G: RG>(start: u64, n: usize) -> Vec<Vec<u8>> {
     }
     out
 }
+
+/// Craft a time-lock ciphertext for an arbitrary pairing value `k` (given as bytes). With
+/// `k = Gt::IDENTITY` this is the ciphertext an attacker would make so that the *identity*
+/// signature "opens" it (C04).
+pub fn timelock_seal_with_k<R: RC>(k_bytes: &[u8], msg: &[u8], alpha: &RS) -> RTimeLock<R> {
+    let alpha_le = rs_le(alpha);
+    let r = timelock_r(&alpha_le, msg);
+    let u = R::Pk::gen().mul(&r);
+    let v = xor32(&alpha_le, &Sha256::digest(k_bytes));
+    let w = shake128_xor(&alpha_le, &frame(msg));
+    RTimeLock { u, v, w }
+}
+
+pub fn gt_identity_bytes() -> Vec<u8> {
+    Gt::IDENTITY.to_bytes().to_vec()
+}
